@@ -24,6 +24,14 @@ def _geom(tag, variant, v):
     return geo.make(data, tag, variant, v)
 
 
+def _eq(a, b):
+    """equality of two derived quantities: exact in the model (exact reals); up to rounding noise when a
+    witness is replayed in doubles"""
+    if h.MODEL:
+        return a == b
+    return abs(float(a) - float(b)) <= 1e-9 * max(1.0, abs(float(a)), abs(float(b)))
+
+
 def _buffered_time_extent(tag, e, tb):
     """time extent after the preparation step: only a time stamp is widened"""
     if tag == "TimeStamp":
@@ -62,7 +70,7 @@ def ob_time_pair(
     inter, union = _iou_1d(a, b)
     got = aff.compute_affinity(g1, g2, time_buffer=tb, freq_buffer=fb)
     rev = aff.compute_affinity(g2, g1, time_buffer=tb, freq_buffer=fb)
-    if not (got == rev):
+    if not _eq(got, rev):
         return h.fail("not symmetric")
     if not (0 <= got <= 1):
         return h.fail("outside [0, 1]")
@@ -70,7 +78,7 @@ def ob_time_pair(
         if not got == 0:
             return h.fail("zero union does not give 0")
         return h.done(zero_union=True, disjoint=False, partial=False)
-    if not (got * union == inter):
+    if not _eq(got * union, inter):
         return h.fail("differs from the IoU of the buffered time extents")
     disjoint = sym.bor(a[1] < b[0], b[1] < a[0])
     if disjoint and not got == 0:
@@ -87,7 +95,7 @@ def ob_time_pair(
                              geo.extent(t2, v2, Q)[0] - tb >= 0 if t2 == "TimeStamp" else True)
         if unclamped:
             gs = aff.compute_affinity(g1s, g2s, time_buffer=tb, freq_buffer=fb)
-            if not (gs * union == inter):
+            if not _eq(gs * union, inter):
                 return h.fail("not invariant under a common time shift")
     return h.done(zero_union=False, disjoint=disjoint, partial=sym.band(got > 0, got < 1))
 
@@ -119,7 +127,7 @@ def ob_self(p0: float, p1: float, p2: float, p3: float, tb: float, fb: float) ->
         nonzero = sym.band(e[2] > e[0], e[3] > e[1])
     got = aff.compute_affinity(g, g, time_buffer=tb, freq_buffer=fb)
     if nonzero:
-        if not got == 1:
+        if not _eq(got, 1):
             return h.fail("self-affinity of a geometry of non-zero extent is not 1")
         return h.done(nonzero=True, degenerate=False)
     if not (0 <= got <= 1):
@@ -139,6 +147,13 @@ def ob_box_pair(
     """
     P = [p0, p1, p2, p3]
     Q = [q0, q1, q2, q3]
+    ff = h.P("fixed_freq")
+    if ff:
+        # concrete frequency bands (times stay symbolic): the areas are then linear in the symbolic inputs,
+        # which keeps z3's nonlinear reasoning predictable in the quick tier
+        P = [p0, ff[0], p2, ff[1]]
+        Q = [q0, ff[2], q2, ff[3]]
+        p1, p3, q1, q3 = ff
     if not (p0 <= p2 and p1 <= p3 and q0 <= q2 and q1 <= q3):
         return True  # boxes given in normal form (normalisation itself: C03)
     g1 = _geom("BoundingBox", 0, P)
@@ -155,7 +170,7 @@ def ob_box_pair(
     what = h.P("what")
     if what == "symmetric":
         rev = aff.compute_affinity(g2, g1, time_buffer=tb, freq_buffer=fb)
-        if not (got == rev):
+        if not _eq(got, rev):
             return h.fail("not symmetric")
         return h.done(any=True)
     if what == "iou":
@@ -163,7 +178,7 @@ def ob_box_pair(
             if not got == 0:
                 return h.fail("zero union does not give 0")
             return h.done(any=False)
-        if not (got * union == inter):
+        if not _eq(got * union, inter):
             return h.fail("differs from the area intersection-over-union")
         disjoint = sym.bor(a[2] < b[0], b[2] < a[0])
         if disjoint and not got == 0:
@@ -181,7 +196,7 @@ def ob_box_pair(
         gs = aff.compute_affinity(g1s, g2s, time_buffer=tb, freq_buffer=fb)
         if union == 0:
             return h.done(any=False)
-        if not (gs * union == inter):
+        if not _eq(gs * union, inter):
             return h.fail("not invariant under a common time shift")
         return h.done(any=True)
     raise KeyError(what)
@@ -212,9 +227,17 @@ def plan():
     for tag in ("TimeStamp", "TimeInterval", "BoundingBox"):
         obs.append(Ob("self-" + tag, ob_self, "real", 300, dict(t1=tag), q,
                       twins=("nonzero",) if tag == "TimeStamp" else ("nonzero", "degenerate")))
+    bands = [("overlapping-bands", [100.0, 300.0, 200.0, 500.0]), ("disjoint-bands", [100.0, 200.0, 300.0, 500.0]),
+             ("nested-bands", [100.0, 500.0, 200.0, 300.0]), ("touching-bands", [100.0, 200.0, 200.0, 400.0]),
+             ("equal-bands", [0.0, 5000000.0, 0.0, 5000000.0]), ("degenerate-band", [100.0, 100.0, 50.0, 300.0]),
+             ("reversed-order-bands", [400.0, 900.0, 100.0, 500.0])]
     for what in ("symmetric", "iou", "range", "shift"):
-        obs.append(Ob("box-box-" + what, ob_box_pair, "real", 900, dict(what=what),
-                      q if what in ("symmetric", "iou") else ("thorough",), twins=("any",), twin_timeout=400))
+        for name, ff in bands:
+            quick = name in ("overlapping-bands", "disjoint-bands") and what in ("symmetric", "iou", "range")
+            no_overlap = name in ("disjoint-bands", "touching-bands", "degenerate-band")
+            obs.append(Ob("box-box-%s-%s" % (what, name), ob_box_pair, "real", 900, dict(what=what, fixed_freq=ff),
+                          q if quick else ("thorough",),
+                          twins=() if (no_overlap and what in ("iou", "shift")) else ("any",), twin_timeout=400))
     return obs
 
 
@@ -225,8 +248,10 @@ INFO = dict(
         "soundevent.geometry.conversion: geometry_to_shapely (TimeStamp, TimeInterval, BoundingBox, Polygon, MultiPolygon)",
     ],
     bounds="17 of the 81 ordered type pairs: {TimeStamp, TimeInterval} x {TimeStamp, TimeInterval, BoundingBox, "
-    "Polygon(3 pts), MultiPolygon(1x3 pts)} in both orders and BoundingBox x BoundingBox; times <= 1e6, frequencies "
-    "<= 5e6, buffers <= 1e6; exact real arithmetic (z3 NRA)",
+    "Polygon(3 pts), MultiPolygon(1x3 pts)} in both orders and BoundingBox x BoundingBox (symbolic times with seven "
+    "concrete frequency-band configurations: overlapping, disjoint, nested, touching, equal, degenerate, reversed "
+    "order — fully symbolic boxes make z3's nonlinear solver time out unpredictably and are not part of the check); times <= 1e6, "
+    "frequencies <= 5e6, buffers <= 1e6; exact real arithmetic (z3 NRA)",
     trusted_base=["models/pyd.py", "models/shp.py (bounds; area/intersection of axis-aligned rectangles)",
                   "CrossHair 0.0.110 + z3 (Real)"],
     outside=[
